@@ -21,7 +21,11 @@ PolicyStep(pre, ev) ==
   ELSE IF ~QWellFormed(StOf(pre)) THEN TRUE
   ELSE /\ ev.obs.q = Q /\ ev.obs.g = G
        /\ IF ev.op \in SpecOps
-          THEN LET x == QApply(ev, StOf(pre)) IN x.st = StOf(ev.obs) /\ x.ret = ev.ret
+          THEN LET x == QApply(ev, StOf(pre)) IN
+               IF x.st = StOf(ev.obs) /\ x.ret = ev.ret THEN TRUE
+               ELSE IF ev.op = "put"      \* the other admissible ghost-hit order (TwoQueue!QPutAlt)
+                    THEN LET y == QPutAlt(StOf(pre), ev.k, ev.v) IN y.st = StOf(ev.obs) /\ y.ret = ev.ret
+                    ELSE FALSE
           ELSE StOf(ev.obs) = StOf(pre)
 
 \* C16: a clone is observationally identical at the moment of cloning (capacity, every partition in
